@@ -39,8 +39,9 @@ column); where a `fix:` commit rewrote the lines a patch touched, the same chang
 | id | caught by | what the change breaks | note |
 |---|---|---|---|
 """ % (len(rows),
-       ("Every one is reported with `VIOLATION`; %d of them only through a broken tie (`no-failing-input-found`), all "
-        "others with a concrete failing input." % n_tie) if not n_missed else
+       (("Every one is reported with `VIOLATION`; %d of them only through a broken tie (`no-failing-input-found`), all "
+         "others with a concrete failing input." % n_tie) if n_tie else
+        "Every one is reported with `VIOLATION` and a concrete failing input by at least one check.") if not n_missed else
        "%d of them are NOT caught by any check (rows marked so); they are kept as open gaps." % n_missed,
        len(rows))
 sec += "\n".join(rows) + "\n\n"
